@@ -19,6 +19,7 @@ mod refmodel;
 mod rules;
 mod runner;
 mod seams;
+mod simio;
 mod supply;
 mod world;
 
@@ -94,6 +95,7 @@ fn main() {
                 write_evidence: !args.iter().any(|a| a == "--no-evidence"),
             })
         }
+        "replay-inner" => runner::replay_inner(std::path::Path::new(args.get(2).map(|s| s.as_str()).unwrap_or(""))),
         "replay" => runner::replay_file(std::path::Path::new(args.get(2).map(|s| s.as_str()).unwrap_or(""))),
         "selftest" => match seams::selftest() {
             Ok(()) => {
